@@ -750,7 +750,8 @@ impl<'a> Sup<'a> {
             libc::SYS_clock_nanosleep => name = "clock_nanosleep",
             _ => return None,
         }
-        p.name = name.to_string();
+        // a hook marker is not a stat of anything: it must not count as one when fault sites are matched
+        p.name = if p.marker { "MARK".to_string() } else { name.to_string() };
         Some(p)
     }
 
